@@ -52,6 +52,7 @@ Profile GetProfile(const std::string& name, bool thorough) {
   } else if (name == "C07") {
     p.pm_interrupt = 350; p.pm_crash = 300; p.pm_torn = 150; p.pm_cmd_fail = 30;
     p.multi_process_cmds = true;
+    p.signal_at_syscall = true;
     p.enumerate_faults = thorough;
   } else if (name == "C16") {
     p.pm_cmd_fail = 150; p.gen.features |= F_RSP | F_HOSTILE_NAMES;
@@ -414,6 +415,37 @@ struct Driver {
     }
   }
 
+  // Half of the interrupts of the C07 profile are addressed by syscall index instead of by
+  // time: in simulated time ninja sits in ppoll almost always, and a signal that arrives while
+  // it is busy (starting commands, recording results) takes another path through its code.
+  void PlanSignalAtSyscall(InvPlan& p) {
+    if (!prof.signal_at_syscall || p.on_signal < 100 || !p.fp.signals.empty() || p.fp.crash_at >= 0 || p.fp.torn_at >= 0) return;
+    if (H(2) != 0) return;
+    size_t mark = tape.Mark(p.stream);
+    World f = w.Fork();
+    f.label = "probe";
+    RunStats scratch;
+    std::vector<Violation> vs;
+    f.viol = &vs;
+    f.stats = &scratch;
+    InvPlan pp = p;
+    pp.record_sys = true;
+    pp.on_signal = p.on_signal % 100;   // the probe itself is not interrupted
+    InvRecord pr = f.RunInvocation(pp);
+    tape.Rewind(p.stream, mark);
+    const auto& kinds = pr.res.sys_kinds;
+    int64_t first_spawn = -1, last = -1;
+    for (auto& kv : kinds) { if (kv.second == 'S' && first_spawn < 0) first_spawn = kv.first; last = kv.first; }
+    if (first_spawn < 0) return;
+    std::vector<int64_t> c;
+    for (auto& kv : kinds) if (kv.first > first_spawn && kv.second != 'L') c.push_back(kv.first);
+    if (c.empty()) return;
+    int64_t at = c[H((uint32_t)c.size())];
+    p.fp.signals.emplace_back(at, p.on_signal / 100);
+    p.on_signal = p.on_signal % 100;
+    rr.stats.n["interrupt_at_busy_syscall"]++;
+  }
+
   // C07: after an interrupted or killed build the next one must succeed, be
   // clean-equal, and redo what was not durably recorded.
   void CheckRecovery(const InvRecord& r) {
@@ -670,6 +702,7 @@ struct Driver {
     InvPlan p = MakeBuildPlan();
     if (prof.enumerate_faults && !enumerated && builds_done > 0 && H(2) == 0) EnumerateKills(p);
     PlanProcessFaults(p);
+    PlanSignalAtSyscall(p);
     TwinBeforeBuild();
     known_before = w.reported_hidden;
     Note(PlanText(p));
